@@ -542,8 +542,8 @@ func indexSpaces(c *core.Ctx, rule string) {
 			o.Sites = len(k.seeds)
 		}
 	}
-	c.Floor(rule, "index uses that identify a space", nSeedSites, 25)
-	c.Floor(rule, "index classes", nClasses, 6)
+	c.Floor(rule, "index uses that identify a space", nSeedSites, 12)
+	c.Floor(rule, "index classes", nClasses, 3)
 	c.Stats[rule+".helper_relations_applied"] = nRel
 }
 
